@@ -8,7 +8,7 @@ ops
   {"op":"run","cfg":{"n_envs":n,"box":{"low":[q],"high":[q]}|null,"learning_starts":k,"freq":f,
                      "episodic":b,"sde_warmup":b,"vec_normalize":b},
    "calls":[{"reset":b,"total":n,"reset_obs":[[q]],"reset_nz":NZ|null,
-             "steps":[{"u":[[q]],"noise":[[q]]|null,"raws":[{"obs":[q],"rew":q,"term":b,"trunc":b,"reset_obs":[q]}],
+             "steps":[{"u":[[q]],"noise":[[q]]|null,"raws":[{"obs":[q],"rew":q,"term":b,"trunc":b,"reset_obs":[q],"stale_term":[q]|null}],
                        "nz":NZ|null}]}]}
         NZ = {"stats":[[mean,sd]|null],"clip_obs":q,"rew_sd":q|null,"clip_rew":q}
         → {"calls":[{"leftover":k,"wants_more":b,"num_timesteps":n}],
@@ -54,7 +54,7 @@ def asNz (j : Json) : Except String (Normalizer Rat) := do
 
 def asRaw (j : Json) : Except String (RawStep Rat) := do
   return ⟨← getList asRat j "obs", ← getRat j "rew", ← getBool j "term", ← getBool j "trunc",
-          ← getList asRat j "reset_obs"⟩
+          ← getList asRat j "reset_obs", ← optField (asListOf asRat) j "stale_term"⟩
 
 def asStepIn (j : Json) : Except String (StepIn Rat) := do
   return ⟨← getList (asListOf asRat) j "u", ← optField (asListOf (asListOf asRat)) j "noise",
